@@ -77,10 +77,8 @@ def make(I):
                 zs.append(z3.BoolVal(a))
             elif isinstance(a, Sym) and a.kind == 'bool':
                 zs.append(a.e)
-            elif isinstance(a, int) or (isinstance(a, Sym) and a.kind == 'int'):
-                zs.append(zint(a))
             else:
-                zs.append(zreal(a))
+                zs.append(zreal(a))          # all numbers are passed as reals so that signatures do not depend on int/float
         rs = {'real': z3.RealSort(), 'bool': z3.BoolSort(), 'int': z3.IntSort()}[sort]
         sig = '_'.join(str(z.sort()) for z in zs)
         f = z3.Function(f'{name}__{sig}', *[z.sort() for z in zs], rs)
@@ -107,6 +105,35 @@ def make(I):
 
     def arr_like(I, like, fn, dtype='float'):
         return Arr(like.shape, lambda idx: I.call(fn, list(idx), {}), dtype)
+
+
+    def lemma(I, name, cond):
+        """a proof step inside a clause: `cond` becomes its own obligation (under everything known here) and is then available"""
+        c = z3.BoolVal(bool(cond)) if not isinstance(cond, Sym) else zbool(cond)
+        ctx = I.ctx
+        if not hasattr(ctx, 'lemmas'):
+            ctx.lemmas = []
+        ctx.lemmas.append((name, c, list(ctx.pc), list(ctx.facts)))
+        base = getattr(ctx, 'base_pc_len', 0)
+        extra = ctx.pc[base:]
+        ctx.fact(z3.Implies(z3.And(*extra), c) if extra else c)
+        return True
+
+
+    def general(I, name, fn, *args):
+        """a general lemma: `fn(v1..vn)` is proved for ALL reals v (its own obligation, no other hypotheses) and then
+        instantiated at `args`"""
+        ctx = I.ctx
+        if not hasattr(ctx, 'lemmas'):
+            ctx.lemmas = []
+        fresh = [ctx.fresh('g_' + name, 'real') for _ in args]
+        g = I.call(fn, fresh, {})
+        gc = z3.BoolVal(bool(g)) if not isinstance(g, Sym) else zbool(g)
+        ctx.lemmas.append(('general.' + name, gc, [], []))
+        inst = I.call(fn, list(args), {})
+        if inst is not True:
+            ctx.fact(zbool(inst))
+        return True
 
     def arr_from_fn(I, shape, fn, dtype='float'):
         shape = tuple(shape) if not isinstance(shape, ShapeTag) else shape
@@ -144,7 +171,7 @@ def make(I):
     ns = dict(fresh_real=F('fresh_real', fresh_real), fresh_int=F('fresh_int', fresh_int), fresh_bool=F('fresh_bool', fresh_bool),
               fact=F('fact', fact), assume=F('assume', assume), implies=F('implies', implies), ite=F('ite', ite),
               oblige=F('oblige', oblige), event=F('event', event), is_symbolic=F('is_symbolic', is_symbolic),
-              unsupported=F('unsupported', unsupported), uf_real=F('uf_real', uf_real), uf=F('uf', uf), arr_like=F('arr_like', arr_like), is_bool_scalar=F('is_bool_scalar', is_bool_scalar), is_bool_array=F('is_bool_array', is_bool_array), dtype_of=F('dtype_of', dtype_of), uf_bool=F('uf_bool', uf_bool),
+              unsupported=F('unsupported', unsupported), uf_real=F('uf_real', uf_real), uf=F('uf', uf), lemma=F('lemma', lemma), general=F('general', general), arr_like=F('arr_like', arr_like), is_bool_scalar=F('is_bool_scalar', is_bool_scalar), is_bool_array=F('is_bool_array', is_bool_array), dtype_of=F('dtype_of', dtype_of), uf_bool=F('uf_bool', uf_bool),
               arr_from_fn=F('arr_from_fn', arr_from_fn), arr_at=F('arr_at', arr_at), is_array=F('is_array', is_array),
               cos=F('cos', N.np_cos), sin=F('sin', N.np_sin), sqrt=F('sqrt', lambda I, x: B.sqrt_(I, x)), PI=N.PI,
               deepcopy=F('deepcopy', lambda I, v: I.ext_modules and __import__('pyvc.stdlib_models', fromlist=['x']).deepcopy(I, v)),
